@@ -92,7 +92,7 @@ static void run_case (long idx) {
   char cpath[600], sopath[600], errpath[600];
   snprintf (cpath, sizeof cpath, "%s/p%ld.c", tmpd, idx); snprintf (sopath, sizeof sopath, "%s/p%ld.so", tmpd, idx); snprintf (errpath, sizeof errpath, "%s/p%ld.err", tmpd, idx);
   MIR_module_t mod = NULL; MIR_item_t entry = NULL, gd = NULL;
-  vp_watch (cur_case, "translate", 60);
+  vp_watch (cur_case, "translate", 20);
   if (VP_TRY) {
     MIR_scan_string (ctx, ptext);
     mod = DLIST_HEAD (MIR_module_t, *MIR_get_module_list (ctx));
@@ -238,7 +238,7 @@ static void run_insn_case (long idx) {
   char cpath[600], sopath[600], errpath[600];
   snprintf (cpath, sizeof cpath, "%s/i%ld.c", tmpd, idx); snprintf (sopath, sizeof sopath, "%s/i%ld.so", tmpd, idx); snprintf (errpath, sizeof errpath, "%s/i%ld.err", tmpd, idx);
   MIR_module_t mod = NULL;
-  vp_watch (cur_case, "translate", 60);
+  vp_watch (cur_case, "translate", 20);
   if (VP_TRY) {
     MIR_scan_string (ctx, ptext);
     mod = DLIST_HEAD (MIR_module_t, *MIR_get_module_list (ctx));
